@@ -33,46 +33,59 @@ structure HashAlg where
   update : σ → Bytes → σ
   digest : σ → Bytes
 
-/-- the handle's file: contents and a read policy (`short off n` = how many bytes a `read(off, n)` call is
-willing to return; a plain file returns all `n`) -/
+/-- the handle's file: contents, a read policy (`short off n` = how many bytes a `read(off, n)` call is
+willing to return; a plain file returns all `n`), and the failure behaviour of the handle:
+`readErr off n = some code` when `read(off, n)` returns the SFTP error code `code` instead of bytes,
+`statErr = some code` when `stat()` returns an error code -/
 structure Env where
   content : Bytes
   short : Nat → Nat → Nat
+  readErr : Nat → Nat → Option Nat := fun _ _ => none
+  statErr : Option Nat := none
 
-/-- `SFTPHandle.read(offset, n)` -/
+/-- `SFTPHandle.read(offset, n)` when it succeeds -/
 def Env.read (e : Env) (off n : Nat) : Bytes := (e.content.drop off).take (min n (e.short off n))
 
 /-- the server's read chunk: "don't try to read more than about 64KB at a time" -/
 def CHUNK : Nat := 65536
 
-/-- the `while count < blocklen` loop: (count, offset, hash state) at exit -/
-def inner (A : HashAlg) (e : Env) (blocklen : Nat) : Nat → Nat → Nat → A.σ → Option (Nat × Nat × A.σ)
+/-- the `while count < blocklen` loop: (count, offset, hash state) at exit, or the error code a read returned -/
+def inner (A : HashAlg) (e : Env) (blocklen : Nat) :
+    Nat → Nat → Nat → A.σ → Option (Except Nat (Nat × Nat × A.σ))
   | 0, _, _, _ => none
   | fuel + 1, count, offset, h =>
     if count < blocklen then
-      let data := e.read offset (min (blocklen - count) CHUNK)
-      if data = [] then some (count, offset, h)
-      else inner A e blocklen fuel (count + data.length) (offset + data.length) (A.update h data)
-    else some (count, offset, h)
+      match e.readErr offset (min (blocklen - count) CHUNK) with
+      | some code => some (.error code)
+      | none =>
+        let data := e.read offset (min (blocklen - count) CHUNK)
+        if data = [] then some (.ok (count, offset, h))
+        else inner A e blocklen fuel (count + data.length) (offset + data.length) (A.update h data)
+    else some (.ok (count, offset, h))
 
-/-- the `while offset < start + length` loop: `sum_out` at exit -/
-def outer (A : HashAlg) (e : Env) (endpos bs : Nat) : Nat → Nat → Bytes → Option Bytes
+/-- the `while offset < start + length` loop: `sum_out` at exit, or the error code of a failed read -/
+def outer (A : HashAlg) (e : Env) (endpos bs : Nat) : Nat → Nat → Bytes → Option (Except Nat Bytes)
   | 0, _, _ => none
   | fuel + 1, offset, out =>
     if offset < endpos then
       let blocklen := min bs (endpos - offset)
       match inner A e blocklen (blocklen + 1) 0 offset A.init with
       | none => none
-      | some (count, offset', h) =>
-        if count = 0 then some out
+      | some (.error code) => some (.error code)
+      | some (.ok (count, offset', h)) =>
+        if count = 0 then some (.ok out)
         else
           let out' := out ++ A.digest h
-          if count < blocklen then some out' else outer A e endpos bs fuel offset' out'
-    else some out
+          if count < blocklen then some (.ok out') else outer A e endpos bs fuel offset' out'
+    else some (.ok out)
 
 inductive Reply
   | hashes (b : Bytes)      -- CMD_EXTENDED_REPLY "check-file" <alg> <hashes>
   | tooSmall                -- STATUS FAILURE "Block size too small"
+  | statFail (code : Nat)   -- STATUS <code> "Unable to stat file"
+  | readFail (code : Nat)   -- STATUS <code> "Unable to hash file"
+  | badHandle               -- STATUS BAD_MESSAGE "Invalid handle"
+  | noAlg                   -- STATUS FAILURE "No supported hash types found"
   | noFuel                  -- (model only) a loop did not finish within its bound
   deriving Repr, DecidableEq
 
@@ -82,18 +95,33 @@ def effBlock (size start length bs : Nat) : Int := if bs = 0 then effLength size
 
 /-- `_check_file` after handle and algorithm were resolved -/
 def checkFile (A : HashAlg) (e : Env) (start length bs : Nat) : Reply :=
-  let len := effLength e.content.length start length
-  let b := effBlock e.content.length start length bs
-  if b < 256 then .tooSmall
-  else
-    match outer A e (start + len.toNat) b.toNat (len.toNat + 1) start [] with
-    | some out => .hashes out
-    | none => .noFuel
+  match (if length = 0 then e.statErr else none) with
+  | some code => .statFail code
+  | none =>
+    let len := effLength e.content.length start length
+    let b := effBlock e.content.length start length bs
+    if b < 256 then .tooSmall
+    else
+      match outer A e (start + len.toNat) b.toNat (len.toNat + 1) start [] with
+      | some (.ok out) => .hashes out
+      | some (.error code) => .readFail code
+      | none => .noFuel
 
 /-- `for x in alg_list: if x in _hash_class: … break` -/
 def selectAlg (known : List Bytes) : List Bytes → Option Bytes
   | [] => none
   | x :: r => if x ∈ known then some x else selectAlg known r
+
+/-- the whole of `_check_file`: handle lookup (`none` = not in `file_table`), algorithm choice, then the above;
+returns the reply and the algorithm name that goes into it -/
+def request (A : HashAlg) (handle : Option Env) (known algs : List Bytes) (start length bs : Nat) :
+    Reply × Bytes :=
+  match handle with
+  | none => (.badHandle, [])
+  | some e =>
+    match selectAlg known algs with
+    | none => (.noAlg, [])
+    | some a => (checkFile A e start length bs, a)
 
 /-! ## specification: the hash of each consecutive block of the requested range -/
 
